@@ -76,7 +76,7 @@ def gen_cases(rng, tier):
         if i % 3 == 0:
             cases.append({"keys": c["keys"], "events": c["events"], "unprobed": [KEYS[i % len(KEYS)]] + ([KEYS[(i // 2) % len(KEYS)]] if i % 2 else [])})
     for k, other, t in (("a:1", "a:2", "ta"), ("a:2", "a:1", "ta"), ("b:1", "a:1", "g:1")):
-        for rm in ("del", "delp", "incr", "set", "dtags"):
+        for rm in ("del", "delp", "incr", "set", "dtags", "incr_tagged"):
             for gap in (8, 2):
                 ev = [[0, ["set", k, 1, 4, [t], "set"]], [0, ["set", other, 2, 1600, [x for x in TAGS_FOR[other] if x == t], "set"]],
                       [gap, ["set", "c", 1, 0, [], "set"]]]
@@ -84,7 +84,10 @@ def gen_cases(rng, tier):
                 elif rm == "delp": ev.append([0, ["delp", k[:2]]])
                 elif rm == "incr": ev.append([0, ["incr", k, 0, [], 1]])
                 elif rm == "dtags": ev.append([0, ["dtags", "u"]])
-                ev += [[0, ["set", k, 5, 0, [], "set"]], [0, ["dtags", t]]]
+                if rm == "incr_tagged":      # the expired entry is met by a tagged incr: the counter's latest write carries the tag
+                    ev += [[0, ["incr", k, 0, [t], 1]], [0, ["dtags", t]]]
+                else:
+                    ev += [[0, ["set", k, 5, 0, [], "set"]], [0, ["dtags", t]]]
                 for unp in ([k], [k, other], []):
                     cases.append({"keys": KEYS, "events": ev, "unprobed": unp})
     # the plain decorator as the writer (value or cached exception, positional or keyword call), then delete_tags of its templated tag
